@@ -104,7 +104,20 @@ class FwdRevised(Fwd):
     pass
 
 
+class FwdLate(CustomSchema[FwdProps]):
+    """A forwarder whose hooks are attached AFTER the class statement (a class decorator, or the
+    library's own Cls.__override__): only __call__ is written in the body."""
+
+    def __call__(self, inner: Any) -> "FwdLate":
+        return self.__class__(self.props.update(inner=inner))
+
+
+for _name in ("__represent__", "__generate__", "__validate__", "__substitute__"):
+    setattr(FwdLate, _name, Fwd.__dict__[_name])
+
+
 _registered = register_type("mc_fwd", Fwd)
+register_type("mc_fwdlate", FwdLate)
 register_type("mc_fwdnamed", Int)
 register_type("mc_fwdrev", _FwdDraft)
 register_type("mc_fwdrev", FwdRevised)       # the later registration wins
@@ -121,6 +134,8 @@ def wrap(inner, flavour=None):
         return out
     if flavour == "set":
         return schema.mc_fwdset(inner)
+    if flavour == "late":
+        return schema.mc_fwdlate(inner)
     if flavour == "named":
         return schema.mc_fwdnamed(inner)
     if flavour == "rereg":
